@@ -731,6 +731,13 @@ pub fn run_program(prog: Program, opts: &Opts, plan: noise::Plan) -> RunResult {
                     }
                 }
                 let _b = c.blocked(NO_OP, PH_DROPOBJ);
+                // half of the panicked objects lose their last owner on a thread that is itself unwinding (Desync::drop then takes its
+                // no-panic path, which has to return quietly: a second panic would abort the process, which the driver reports)
+                if c.prog.panics && oracle::object_panicked(&c, i) && mix(c.prog.run_seed ^ 0xd0d0 ^ i as u64) % 2 == 0 {
+                    c.dropped_unwinding.fetch_add(1, Ordering::SeqCst);
+                    let _ = catch_unwind(AssertUnwindSafe(|| { let _owner = d; panic!("vh-expected-panic (last owner of a panicked object dropped during unwinding)") }));
+                    continue;
+                }
                 let r = catch_unwind(AssertUnwindSafe(|| std::mem::drop(d)));
                 if r.is_err() && !c.prog.panics { c.sink.report("C05", "drop_panicked", "drop_panicked".into(), format!("dropping object {} panicked", i)); }
             }
